@@ -5,6 +5,7 @@ CONSTANTS NMsgs = 3
  LostExc = FALSE
  WithUser = TRUE
  WithLost = TRUE
+ WithStop = FALSE
  WithConnector = TRUE
  MaxConn = 3
 INVARIANT NoExceptionIntoPump
@@ -12,4 +13,6 @@ INVARIANT NoExceptionIntoUser
 INVARIANT AtMostOnce
 INVARIANT QueueOrder
 INVARIANT ExactlyOnceOrDropped
+INVARIANT Conservation
+PROPERTY NoWriteAfterExit
 CHECK_DEADLOCK FALSE
